@@ -8,7 +8,9 @@ Implementation functions driven (real code from $VERIF_REPO/src/highdicom/volume
   result.geometry_equal(target, tol=T) after a successful match, VolumeToVolumeTransformer.affine,
   map_indices_to_reference, and transformer vs. map_indices_to_reference -> map_reference_to_indices on the same points;
   the transformer called with index arrays of every integer / floating dtype (int8..int64, uint8..uint64, float32,
-  float64): returned values, dtype of the returned array, bounds decision, side by side with the physical route.
+  float64): returned values, dtype of the returned array, bounds decision, side by side with the physical route;
+  float16 / float32 index arrays whose MAPPED indices are large relative to the precision of the input type
+  (stratum v2v_lowprec: magnifying targets, long axes, offsets within the last bits of .5).
 Model: coq/theories/C09_Model.v; theorems: C09_Props.v.
 
 Geometries are generated as exact rationals (orthonormal rational direction
@@ -37,6 +39,9 @@ ORACLE_PREMISES = [
     '(modelled as the per-axis index map; validated voxel-by-voxel by the correspondence run)',
     'unit direction vectors of generated geometries are exactly orthonormal rationals; a geometry whose columns '
     'are not orthogonal is refused by the Volume constructor (not modelled)',
+    'un-rounded float16 / float32 calls: the float64 value of an image and the exact rational round to the same '
+    'float of the input type (no double rounding: images are drawn >= 1e-8 max(1,|t|) off every midpoint of the '
+    'format, otherwise the case is judged by the numpy oracle alone); float16 overflow / subnormals are not drawn',
 ]
 MODELLED = ('volume.py: _VolumeBase.geometry_equal, match_geometry (axis alignment, stride rounding, per-axis '
             'start/end/pad/crop arithmetic, requires_crop flag, slice checks of _prepare_getitem_index, '
@@ -47,11 +52,13 @@ MODELLED = ('volume.py: _VolumeBase.geometry_equal, match_geometry (axis alignme
             'source voxel per axis; MINIMUM/MAXIMUM/MEAN/MEDIAN of the label array); the dtype handling of '
             'VolumeToVolumeTransformer.__call__ (input_is_int = signed only, rounded output cast to the signed input '
             'type / int64 by two\'s complement, unrounded output cast back to a floating input type only, bounds check '
-            'after the cast, dtype of the returned array)')
+            'after the cast, dtype of the returned array); astype(float16 / float32) of the un-rounded result as '
+            'fl_round (nearest p-bit float, ties to even; exponent range not modelled) in run_v2v_fp - the rounded '
+            'branch never sees the precision of the input')
 STRATA = ['geq', 'geq_for', 'geq_tol', 'match_direct', 'match_chain', 'match_outside', 'match_geomsrc',
           'match_perturbed', 'match_refuse_meta', 'v2v', 'v2v_boundary', 'v2v_outside', 'r2i', 'r2i_boundary',
           'bad_points', 'match_mode', 'v2v_affine', 'i2r', 'via_phys',
-          'match_tiny_spacing', 'v2v_dtype', 'v2v_unsigned_neg']
+          'match_tiny_spacing', 'v2v_dtype', 'v2v_unsigned_neg', 'v2v_lowprec']
 RULE = ('source geometries: rational orthonormal directions (48 signed permutations, Pythagorean and quaternion '
         'rotations, optionally mirrored), rational spacings, dyadic/rational positions, shapes 1..5 (..7 thorough), '
         'both coordinate systems, FoR UID present/absent; targets: (a) exact (sigma,k,a,m) per-axis '
@@ -64,11 +71,19 @@ RULE = ('source geometries: rational orthonormal directions (48 signed permutati
         'uint8/16/32/64, float32/64 given to the transformer (related and unrelated geometries, images inside / negative '
         '/ beyond the target, target axes longer than 256 voxels, int8 images exactly at 127 / -128; narrow signed types '
         'only with images that fit), round_output x check_bounds for every dtype; stratum v2v_unsigned_neg = unsigned '
-        'input with >= 1 negative image (rounded: the int64 result must keep it; unrounded: fixed defect D112). non-trivial = source with > 1 '
+        'input with >= 1 negative image (rounded: the int64 result must keep it; unrounded: fixed defect D112); stratum '
+        'v2v_lowprec = float16 / float32 index arrays (exactly representable points) into targets derived with '
+        'fractional strides 1/32 .. 2 source voxels and fractional starts, >= 1 axis with mapped indices 2^13 .. 2^18 '
+        '(float32) resp. 8 .. 2045 (float16), fractional parts .5 +- 2^-11 .. .2, next to a voxel centre, or arbitrary; '
+        'first image in the last voxel of its axis / inside / just beyond / before the first voxel; round_output (70 %) '
+        'x check_bounds; never within 2^-12 of a rounding tie or bounds threshold. non-trivial = source with > 1 '
         'voxel and (for point cases) >= 1 point; distinct by case hash')
 NOT_EXECUTED = ['per_channel=True statistics padding of multi-channel volumes in match_geometry',
                 'signed int8/int16/int32 index arrays whose rounded image does not fit the input type (documented '
-                '"matched to the input datatype": wraps; outside the fits-hypothesis of C09_v2v_dtype_rounded_exact)']
+                '"matched to the input datatype": wraps; outside the fits-hypothesis of C09_v2v_dtype_rounded_exact)',
+                'un-rounded float16 calls with images >= 2048 / float32 with images >= 2^23 (the returned float type '
+                'cannot hold every voxel index there: "matched to the input datatype" loses whole voxels by design), '
+                'float16 overflow (> 65504) and subnormals']
 
 FOR_UIDS = {None: None, 1: '1.2.826.0.1.3680043.8.498.1', 2: '1.2.826.0.1.3680043.8.498.2'}
 CS = ['PATIENT', 'SLIDE']
@@ -693,7 +708,7 @@ DT_RANGE = {'int8': (-2**7, 2**7 - 1), 'int16': (-2**15, 2**15 - 1), 'int32': (-
             'uint32': (0, 2**32 - 1), 'uint64': (0, 2**64 - 1)}
 DT_COQ = {'int8': '(DInt W8)', 'int16': '(DInt W16)', 'int32': '(DInt W32)', 'int64': '(DInt W64)',
           'uint8': '(DUInt W8)', 'uint16': '(DUInt W16)', 'uint32': '(DUInt W32)', 'uint64': '(DUInt W64)',
-          'float32': '(DFloat W32)', 'float64': '(DFloat W64)'}
+          'float16': '(DFloat W16)', 'float32': '(DFloat W32)', 'float64': '(DFloat W64)'}
 
 
 def _rhe(v):
@@ -840,6 +855,131 @@ def _v2v_dtype(rng, hi, kind):
     return c
 
 
+# ---- index arrays of REDUCED floating point precision (float16 / float32) ------------------------------
+FBITS = {'float16': 11, 'float32': 24}
+LOWP_K = [F(1), F(1), F(-1), F(1, 2), F(1, 4), F(1, 8), F(1, 16), F(1, 16), F(-1, 16), F(-1, 4), F(1, 10),
+          F(1, 3), F(2), F(3, 2), F(1, 32)]
+
+
+def _fl_exp(x, p):
+    """exponent e of the unit in the last place 2^e of x != 0 in a binary format with p significant bits"""
+    n, d = abs(x.numerator), x.denominator
+    E = n.bit_length() - d.bit_length()
+    while F(2) ** E > abs(x):
+        E -= 1
+    while F(2) ** (E + 1) <= abs(x):
+        E += 1
+    return E - (p - 1)
+
+
+def _fl(x, p):
+    """generator-side rounding of a Fraction to p significant bits, ties to even (the oracle uses numpy instead)"""
+    x = F(x)
+    if x == 0:
+        return x
+    u = F(2) ** _fl_exp(x, p)
+    return _rhe(x / u) * u
+
+
+def _fl_safe(t, p):
+    """the float64 value of t and t itself round to the same p-bit float: t is not within 1e-8 max(1,|t|) of the
+    midpoint of two neighbouring floats (or the format is so fine there that a flip is below the comparison TOL)"""
+    if t == 0:
+        return True
+    u = F(2) ** _fl_exp(t, p)
+    if u <= F(5, 10**9):
+        return True
+    y = t / u
+    return abs(y - (y.numerator // y.denominator) - F(1, 2)) * u >= F(1, 10**8) * max(F(1), abs(t))
+
+
+def _lowp_ok(t, p, rnd):
+    """admissible image coordinate: clear of rounding ties / bounds thresholds (2^-12 and 2e-9 |t|: float64 error),
+    for the un-rounded call also clear of the midpoints of the input format"""
+    d = abs(t - (t.numerator // t.denominator) - F(1, 2))
+    if d < F(1, 4096) or d < F(2, 10**9) * abs(t):
+        return False
+    return rnd or _fl_safe(t, p)
+
+
+def _lowp_frac(rng):
+    r = rng.random()
+    if r < 0.6:       # within the last bits of a rounding tie: .5 +- delta
+        delta = rng.choice([F(3, 1000), F(1, 1000), F(1, 256), F(rng.randint(1, 500), 2048),
+                            F(rng.randint(1, 249), 1000), F(1, 2048), F(1, 10), F(1, 5)])
+        return F(1, 2) + rng.choice([1, -1]) * delta
+    if r < 0.8:       # next to a voxel centre
+        return rng.choice([F(0), F(1, 1000), F(-1, 1000), F(1, 8), F(-1, 8), F(3, 10), F(-3, 10)])
+    return F(rng.randint(0, 999), 1000)
+
+
+def _v2v_lowprec(rng, hi):
+    """transformer(float16 / float32 index array) where the MAPPED indices are large relative to the precision of
+    the input type and non-integral: magnifying targets (stride 1/2 .. 1/32 source voxels: pyramid level -> base
+    level), long axes, sub-voxel offsets within the last bits of .5; images in the last voxel / just beyond"""
+    dt = rng.choice(['float32', 'float16'])
+    p = FBITS[dt]
+    rnd = rng.random() < 0.7
+    g = rand_geom(rng, hi)
+    sig = [0, 1, 2]
+    rng.shuffle(sig)
+    big = rng.randrange(3)
+    k, a, m, first = [], [], [], [None] * 3
+    for d in range(3):
+        for _ in range(200):
+            if d == big or rng.random() < 0.3:
+                lo, top = (13, 18) if dt == 'float32' else (3, 11)
+                N = min(int(2 ** rng.uniform(lo, top)), 2 ** top - 3)
+            else:
+                N = rng.choice([0, 1, rng.randint(0, 40), rng.randint(0, 40)]) if rng.random() < 0.93 else rng.choice([-1, -2])
+            kd = rng.choice(LOWP_K)
+            t0 = N + _lowp_frac(rng)
+            p0 = _fl(abs(kd) * abs(N) + F(rng.randint(0, 16), 4), p)
+            if dt == 'float16' and abs(p0) > 2047:
+                continue
+            if _lowp_ok(t0, p, rnd):
+                break
+        else:
+            raise AssertionError('v2v_lowprec: no admissible first point')
+        r0 = _rhe(t0)
+        if r0 < 0:
+            md = rng.randint(1, 6)
+        else:
+            # last voxel / inside / just beyond
+            md = r0 + (0 if rng.random() < 0.08 else rng.choice([1, 1, 1, 2, rng.randint(2, 2000)]))
+        if dt == 'float16':
+            md = min(md, 2047)
+        k.append(kd)
+        a.append(p0 - kd * t0)
+        m.append(max(1, md))
+        first[sig[d]] = p0
+    h = derive_target(g, sig, k, a, m)
+    pts = [[str(v) for v in first]]
+    lim = F(2047) if dt == 'float16' else F(2 ** 23)
+    for _ in range(rng.choice([0, 1, 2, 3])):
+        want_in = rng.random() < 0.75
+        for _ in range(50):
+            q = [v if rng.random() < 0.4 else _fl(v + F(rng.randint(-64, 64), rng.choice([1, 1, 2, 4])), p)
+                 for v in first]
+            idx = _exact_index(g, h, q)
+            if want_in and not all(F(-1, 2) < t < md - F(1, 2) for t, md in zip(idx, m)):
+                continue
+            if all(_lowp_ok(t, p, rnd) and abs(t) < lim for t in idx) and all(0 <= v <= lim for v in q):
+                pts.append([str(v) for v in q])
+                break
+    # the source holds every point handed over (indices of real voxels of the source)
+    for j in range(3):
+        top = max(F(q[j]) for q in pts)
+        g['shape'][j] = max(g['shape'][j], int(top) + 2)
+    nvox = m[0] * m[1] * m[2]
+    nsrc = g['shape'][0] * g['shape'][1] * g['shape'][2]
+    return {'kind': 'v2v_lowprec', 'g': g, 'h': h, 'pts': pts, 'round': rnd, 'check': rng.random() < 0.55,
+            'in_dtype': dt, 'related': True, 'spec': {'sigma': sig, 'k': [str(x) for x in k],
+                                                       'a': [str(x) for x in a], 'm': m},
+            'kinds': ['geometry' if nsrc > 200000 else rng.choice(['geometry', 'volume']),
+                      'geometry' if nvox > 200000 else rng.choice(['geometry', 'volume'])]}
+
+
 def gen_cases(rng, tier):
     n = {'quick': 60, 'thorough': 1500, 'search': 400}[tier]
     hi = 5 if tier == 'quick' else 7
@@ -882,6 +1022,8 @@ def gen_cases(rng, tier):
         cases.append(_v2v_dtype(rng, hi, 'v2v_dtype'))
     for _ in range(n):
         cases.append(_v2v_dtype(rng, hi, 'v2v_unsigned_neg'))
+    for _ in range(2 * n):
+        cases.append(_v2v_lowprec(rng, hi))
     return cases
 
 
@@ -964,7 +1106,10 @@ def _run_dtype(c):
     if dt.kind in 'iu':
         pts = np.array([[int(F(v)) for v in p] for p in c['pts']], dtype=dt).reshape(-1, 3)
     else:
-        pts = np.array([[float(F(v)) for v in p] for p in c['pts']], dtype=np.float64).reshape(-1, 3).astype(dt)
+        p64 = np.array([[float(F(v)) for v in p] for p in c['pts']], dtype=np.float64).reshape(-1, 3)
+        pts = p64.astype(dt)
+        if c['kind'] == 'v2v_lowprec' and not np.array_equal(pts.astype(np.float64), p64):
+            raise AssertionError('v2v_lowprec: a point is not representable in ' + c['in_dtype'])
 
     def direct():
         t = hd.VolumeToVolumeTransformer(a, b, round_output=c['round'], check_bounds=c['check'])
@@ -991,7 +1136,7 @@ def run_impl(c):
         return bool(a.geometry_equal(b, tol=tol))
     if k in ('v2v_affine', 'i2r', 'via_phys'):
         return _run_points_ext(c)
-    if k in ('v2v_dtype', 'v2v_unsigned_neg'):
+    if k in ('v2v_dtype', 'v2v_unsigned_neg', 'v2v_lowprec'):
         return _run_dtype(c)
     if k.startswith('match'):
         src = build(c['g'], c['src_kind'], c.get('channels', 0), c.get('dtype', 'float64'))
@@ -1089,15 +1234,22 @@ def coq_term(c):
         if k == 'i2r':
             return f"(run_idx2ref {g_coq(c['g'])} {pts})"
         return f"(run_via_phys {g_coq(c['g'])} {g_coq(c['h'])} {_b(c['round'])} {_b(c['check'])} {pts})"
-    if k in ('v2v_dtype', 'v2v_unsigned_neg'):
-        if c['in_dtype'] == 'float32' and not c['round']:
-            # the unrounded result is rounded to float32 (oracle premise): model-compared only when every image is
-            # exactly representable (related geometries, dyadic images), judged by the oracle alone otherwise
+    if k in ('v2v_dtype', 'v2v_unsigned_neg', 'v2v_lowprec'):
+        fn = 'run_v2v_dt'
+        if c['in_dtype'] in FBITS and not c['round']:
+            # the unrounded result is rounded to float32 / float16: exact in run_v2v_dt (model-compared when every
+            # image is exactly representable), modelled faithfully (fl_round) in run_v2v_fp - compared whenever the
+            # float64 value and the exact value cannot fall on different sides of a midpoint of the format
+            # (double rounding, oracle premise); judged by the numpy oracle alone otherwise
             idx = [v for p in c['pts'] for v in _exact_index(c['g'], c['h'], [F(x) for x in p])]
-            if any((v * 1024).denominator != 1 or abs(v) > 4096 for v in idx):
+            if all(_fl_safe(v, FBITS[c['in_dtype']]) for v in idx):
+                fn = 'run_v2v_fp'
+            elif any((v * 1024).denominator != 1 or abs(v) > 4096 for v in idx) or c['in_dtype'] != 'float32':
                 return None
+        elif k == 'v2v_lowprec':
+            fn = 'run_v2v_fp'
         pts = '[' + '; '.join(_v3(p) for p in c['pts']) + ']'
-        return (f"(run_v2v_dt {DT_COQ[c['in_dtype']]} {g_coq(c['g'])} {g_coq(c['h'])} {_b(c['round'])} "
+        return (f"({fn} {DT_COQ[c['in_dtype']]} {g_coq(c['g'])} {g_coq(c['h'])} {_b(c['round'])} "
                 f"{_b(c['check'])} {pts})")
     if k.startswith('match'):
         tol = q(c['tol']) if c.get('tol') is not None else '(1 # 100000)%Q'
@@ -1332,6 +1484,81 @@ def _oracle_dtype(c, out):
     return f'{c["in_dtype"]} input: {msg}' if msg else None
 
 
+def _oracle_lowprec(c, out):
+    """float16 / float32 index array.  Everything is recomputed in float64 through physical coordinates from the
+    (exactly representable) points.  Rounded call: the returned int64 values must be rint() of that mapping and the
+    bounds check must fail exactly when a rounded index leaves the target - whatever the precision of the input.
+    Un-rounded call: each returned coordinate must be the float64 mapping correctly rounded to the input type (half
+    an ulp of that type), returned in that type; the bounds check may fail only for points really outside and must
+    fail for points outside by more than one ulp of the input type.  The physical route on the same array is a
+    float64 computation (judged as such); both routes must accept / refuse alike."""
+    import numpy as np
+    direct, via = out
+    g, h = c['g'], c['h']
+    dt = np.dtype(c['in_dtype'])
+    A, B = g_affine(g), g_affine(h)
+    pts = np.array([[float(F(v)) for v in p] for p in c['pts']], dtype=np.float64).reshape(-1, 3)
+    phys = (A[:3, :3] @ pts.T).T + A[:3, 3]
+    idx = np.linalg.solve(B[:3, :3], (phys - B[:3, 3]).T).T
+    n = np.array(h['shape'], dtype=np.float64)
+    rounded = np.rint(idx)
+    out_rounded = bool(((rounded < 0) | (rounded > n - 1)).any())
+    out_exact = bool(((idx < -0.5) | (idx > n - 0.5)).any())
+    who = f'{c["in_dtype"]} input, round_output={c["round"]}: '
+    where = f' (mapping through physical space: {idx.tolist()}, target shape {h["shape"]})'
+    # --- the transformer
+    if isinstance(direct, Err):
+        if not c['check']:
+            return who + f'raised {direct} without check_bounds'
+        if direct.kind != 'ValueError':
+            return who + f'bounds failure raised {direct.kind}, expected ValueError'
+        if not (out_rounded if c['round'] else out_exact):
+            return who + 'bounds check failed although every point lies inside the target' + where
+    else:
+        vals, code = direct
+        want_code = 164 if c['round'] else 300 + 8 * dt.itemsize
+        if code != want_code:
+            return who + f'returned array has dtype code {code}, expected {want_code} (kind*100 + bits)'
+        got = np.array(vals, dtype=np.float64).reshape(-1, 3)
+        if got.shape != idx.shape:
+            return who + f'returned shape {got.shape}'
+        if c['round']:
+            if c['check'] and out_rounded:
+                return who + 'bounds check passed although a rounded index lies outside the target' + where
+            if not np.array_equal(got, rounded):
+                bad = np.argwhere((got != rounded).any(axis=1)).ravel()[0]
+                return (who + f'point {pts[bad].tolist()} mapped to voxel {got[bad].tolist()}, through physical '
+                        f'space it is {rounded[bad].tolist()} (continuous {idx[bad].tolist()})')
+        else:
+            ulp = np.spacing(np.abs(idx).astype(dt)).astype(np.float64)
+            tolv = 0.5 * ulp * (1 + 1e-6) + 1e-9 * np.maximum(1.0, np.abs(idx))
+            if not (np.abs(got - idx) <= tolv).all():
+                return who + f'indices {got.tolist()} are not the mapping through physical space rounded to the input type' + where
+            if c['check']:
+                lo_u = float(np.spacing(dt.type(0.5)))
+                hi_u = np.spacing(np.abs(n - 0.5).astype(dt)).astype(np.float64)
+                if bool(((idx < -0.5 - lo_u) | (idx > n - 0.5 + hi_u)).any()):
+                    return who + 'bounds check passed although a point lies outside the target' + where
+    # --- the route through physical space on the same array
+    if isinstance(via, Err):
+        if not c['check'] or via.kind != 'RuntimeError' or not out_exact:
+            return who + f'map_reference_to_indices raised {via} (check_bounds={c["check"]})' + where
+    else:
+        gv = np.array(via, dtype=np.float64).reshape(-1, 3)
+        if c['check'] and out_exact:
+            return who + 'map_reference_to_indices passed a point outside the target' + where
+        wantv = rounded if c['round'] else idx
+        if gv.shape != wantv.shape or not np.allclose(gv, wantv, rtol=0, atol=1e-9 * max(1.0, float(np.abs(idx).max()))):
+            return who + f'physical route gave {gv.tolist()}' + where
+    # --- against each other (no rounding ties are drawn: out_rounded == out_exact)
+    if c['round'] and isinstance(direct, Err) != isinstance(via, Err):
+        return who + (f'the transformer {"refused" if isinstance(direct, Err) else "accepted"} a point set that the '
+                      f'route through physical space {"refused" if isinstance(via, Err) else "accepted"}') + where
+    if not c['round'] and isinstance(via, Err) and not isinstance(direct, Err) and c['check']:
+        pass        # outside by less than one ulp of the input type: the returned (cast) value lies on the face
+    return None
+
+
 def oracle(c, out):
     k = c['kind']
     if k.startswith('geq'):
@@ -1342,6 +1569,8 @@ def oracle(c, out):
         return _oracle_points_ext(c, out)
     if k in ('v2v_dtype', 'v2v_unsigned_neg'):
         return _oracle_dtype(c, out)
+    if k == 'v2v_lowprec':
+        return _oracle_lowprec(c, out)
     if k.startswith('match'):
         return _oracle_match(c, out)
     if k == 'bad_points':
@@ -1364,6 +1593,10 @@ def nontrivial(c, out):
         # an unsigned index array with at least one image before the first voxel of the target
         return c['in_dtype'] in UNSIGNED and any(
             v < F(-1, 2) for p in c['pts'] for v in _exact_index(c['g'], c['h'], [F(x) for x in p]))
+    if c['kind'] == 'v2v_lowprec':
+        # >= 1 image coordinate at which the input type resolves less than 2^-10 voxel
+        pb = FBITS[c['in_dtype']]
+        return any(abs(v) >= 2 ** (pb - 10) for p in c['pts'] for v in _exact_index(c['g'], c['h'], [F(x) for x in p]))
     return len(c['pts']) >= 1
 
 
